@@ -537,7 +537,8 @@ def m_rev(m, st, ctx, args, span):
        "core::slice::iter::<impl std::iter::IntoIterator for &'a mut [T]>::into_iter",
        "std::array::<impl std::iter::IntoIterator for &'a [T; N]>::into_iter",
        "std::array::<impl std::iter::IntoIterator for &'a mut [T; N]>::into_iter",
-       "<std::iter::Rev<I> as std::iter::IntoIterator>::into_iter")
+       "<std::iter::Rev<I> as std::iter::IntoIterator>::into_iter",
+       "std::array::iter::<impl std::iter::IntoIterator for [T; N]>::into_iter", "<std::vec::Vec<T, A> as std::iter::IntoIterator>::into_iter")
 def m_into_iter(m, st, ctx, args, span):
     v = args[0]
     if isinstance(v, IterV):
